@@ -1,0 +1,39 @@
+// Copyright 2024 The Mellium Contributors.
+// Use of this source code is governed by the BSD 2-clause
+// license that can be found in the LICENSE file.
+
+//go:build verif
+
+package form
+
+// VerifField is a copy of the unexported field type for the verification
+// harness.
+type VerifField struct {
+	Type     FieldType
+	Var      string
+	Label    string
+	Desc     string
+	Value    []string
+	Option   []FieldOpt
+	Required bool
+}
+
+// VerifDump returns the type, a copy of the fields and the submitted values
+// of a form. It exists only in builds with the verif tag.
+func VerifDump(d *Data) (typ string, fields []VerifField, values map[string]interface{}) {
+	if d == nil {
+		return "", nil, nil
+	}
+	for _, f := range d.fields {
+		fields = append(fields, VerifField{
+			Type:     f.typ,
+			Var:      f.varName,
+			Label:    f.label,
+			Desc:     f.desc,
+			Value:    append([]string(nil), f.value...),
+			Option:   append([]FieldOpt(nil), f.option...),
+			Required: f.required,
+		})
+	}
+	return string(d.typ), fields, d.values
+}
